@@ -15,6 +15,7 @@
 package blockfetch
 
 import (
+	"bytes"
 	"context"
 	"errors"
 	"fmt"
@@ -26,6 +27,14 @@ import (
 	lcommon "github.com/blinklabs-io/gouroboros/ledger/common"
 	"github.com/blinklabs-io/gouroboros/protocol"
 	pcommon "github.com/blinklabs-io/gouroboros/protocol/common"
+)
+
+// Errors returned by GetBlock when the server's batch is not an answer to a
+// single-block request.
+var (
+	ErrBatchWithoutBlock   = errors.New("block-fetch: batch completed without a block")
+	ErrBatchMultipleBlocks = errors.New("block-fetch: batch contained more than one block for a single-block request")
+	ErrBlockHashMismatch   = errors.New("block-fetch: received block does not match the requested point")
 )
 
 type clientLifecycleState uint8
@@ -435,6 +444,15 @@ func (c *Client) GetBlock(point pcommon.Point) (ledger.Block, error) {
 			return nil, protocol.ErrProtocolShuttingDown
 		}
 		block = b
+	case _, ok := <-c.batchDoneChan:
+		// The server ended the batch without sending a block. Taking the signal
+		// here keeps handleBatchDone (and with it the receive loop) from blocking
+		// forever on a caller that is still waiting for a block.
+		c.releaseBusy(token)
+		if !ok {
+			return nil, protocol.ErrProtocolShuttingDown
+		}
+		return nil, ErrBatchWithoutBlock
 	case <-protocolDone:
 		c.releaseBusy(token)
 		return nil, protocol.ErrProtocolShuttingDown
@@ -442,15 +460,41 @@ func (c *Client) GetBlock(point pcommon.Point) (ledger.Block, error) {
 	// Wait for BatchDone before returning to ensure the protocol state machine
 	// completes the batch properly (transitions back to Idle state).
 	// handleBatchDone signals batchDoneChan in GetBlock mode instead of unlocking.
-	select {
-	case <-c.batchDoneChan:
-		// BatchDone was processed successfully
-		c.releaseBusy(token)
-		return block, nil
-	case <-protocolDone:
-		// Shutdown while waiting for BatchDone
-		c.releaseBusy(token)
-		return nil, protocol.ErrProtocolShuttingDown
+	// Any further block of the batch is drained so that handleBlock never blocks
+	// on a caller that has stopped listening; such a batch is not an answer to a
+	// single-block request and is reported as an error.
+	extraBlocks := false
+	for {
+		select {
+		case _, ok := <-c.blockChan:
+			if !ok {
+				c.releaseBusy(token)
+				return nil, protocol.ErrProtocolShuttingDown
+			}
+			extraBlocks = true
+		case _, ok := <-c.batchDoneChan:
+			c.releaseBusy(token)
+			if !ok {
+				return nil, protocol.ErrProtocolShuttingDown
+			}
+			if extraBlocks {
+				return nil, ErrBatchMultipleBlocks
+			}
+			// The block must be the one that was asked for
+			if !bytes.Equal(block.Hash().Bytes(), point.Hash) {
+				return nil, fmt.Errorf(
+					"%w: requested %x, received %s",
+					ErrBlockHashMismatch,
+					point.Hash,
+					block.Hash().String(),
+				)
+			}
+			return block, nil
+		case <-protocolDone:
+			// Shutdown while waiting for BatchDone
+			c.releaseBusy(token)
+			return nil, protocol.ErrProtocolShuttingDown
+		}
 	}
 }
 
